@@ -351,6 +351,12 @@ def r4_dropped_lines(ctx):
         rep.ob('C19.R4', ctx.loc(f, c), ctx.src(c), False,
                'the loop iterates %s.exec_lines itself and changes its length inside the body: the line that follows a removed line is never examined, so the second of two '
                'consecutive star imports survives into the function body' % part, anchor=CONV)
+    # leaving the filter loop early drops every line that follows: only `continue` may skip a line
+    for n in g.nodes:
+        if not n.dup and n.kind == 'stmt' and isinstance(n.ast, ast.Break) and graph.in_loop_body(n, ll.ast) and \
+                not any(fr.kind == 'loop' and fr.head is not ll and graph.in_loop_body(fr.head, ll.ast) for fr in n.frames):
+            rep.ob('C19.R4', ctx.loc(f, n.ast), 'break inside the line filter', False,
+                   'the loop over the executable lines is left at the first filtered line: every source line after a star import is missing from the dumped function', anchor=CONV)
     if inplace and not keeps:
         return
     rep.floor('C19.R4', 'keep sites in the line filter', len(keeps), 1)
@@ -653,6 +659,7 @@ VARIANTS = [
     fire('module-path-dots-kept-in-the-name', 'C19.R2b', (RN, "example.modname.replace('.', '_') + '_'", "example.modname + '_'")),
     fire('function-name-keeps-its-dots', 'C19.R2b', (RN, "example.modname.replace('.', '_')", "example.modname.replace('_', '.')")),
     fire('star-import-removal-only-when-switched-off', 'C19.R4', (RN, "            if dump_config['remove_import_star']:\n", "            if not dump_config['remove_import_star']:\n")),
+    fire('filter-loop-left-at-the-first-star-import', 'C19.R4', (RN, "                    if ' import *' in line:\n                        continue\n", "                    if ' import *' in line:\n                        break\n")),
     fire('star-import-kept-after-the-test', 'C19.R4', (RN, "                    if ' import *' in line:\n                        continue\n", "                    if ' import *' in line:\n                        pass\n")),
     fire('want-comment-header-never-assigned', 'C19.R11', (RN, "                want_text = '# doctest want:\\n'\n", "                pass\n")),
     fire('dump-text-logged-at-default-level', 'C19.R8', (RN, "        _log(module_text, level=0)\n", "        _log(module_text)\n")),
